@@ -4,7 +4,7 @@ import re
 from engine import absint
 from engine.absint import outcome_str
 from engine.rules import (MustPass, outcome, calls_to, root_fn, success_values, call_checked)
-from engine.rules import bool_atom, switch_bool_edges, derived_locals, switch_on_locals
+from engine.rules import bool_atom, switch_bool_edges, derived_locals, switch_on_locals, aggregates_of
 from engine.sym import strip, strip_deep, render, walk, short, unmut, Sym
 from props import common as K
 
@@ -475,6 +475,16 @@ def run(ctx):
         ctx.ob("R-GRD", "Connection::check_version:version-stored-only-if-supported", okv,
                "check_version remembers the client's version only on the branch where it is not above MAX_VERSION (a rejected "
                "first query must not pin the connection to an unsupported version)", where=cv.loc, detail=det)
+    # … and by nobody else: an accessor that settles the version as a side effect (`get_or_insert`) would let an update
+    # notification that arrives before the first query pin the connection to a version the client never asked for
+    CONN = "rtr::server::Connection"
+    vfield = _field_of_type(f, CONN, r"^std::option::Option<u8>$", "version")
+    makers = {root_fn(f, x[0].name) for x in aggregates_of(f, CONN)}
+    _recv = find_recv(f, find_dispatch(f))
+    K.check_field_writers(ctx, f, "R-WHO", CONN, vfield,
+                          makers | {find_check_version(f, vfield) or SRV + "check_version"} | ({root_fn(f, _recv)} if _recv else set()),
+                          "the connection's negotiated version is set only where the connection is created and by the version "
+                          "check of a received query (never as a side effect of sending)")
     # fragmentation: fixed-size parts are filled by read_exact, a plain `read` only inside the two cursor loops
     from props.C07 import check_plain_reads
     check_plain_reads(ctx, f)
